@@ -1817,3 +1817,393 @@ def r12_13(rep):
             rep.check(ok, "fn-signature-kind@" + short(b), "`%s`%s" % (src[:160], "" if ok else
                       ": the kind of an alias is TypeKind::Alias, the fallback aborts (function declared through a typedef)"), b.loc(st))
     rep.need(n >= 4, "destructurings of a function signature's TypeKind::Function with an aborting fallback")
+
+
+# ---------------------------------------------------------------------------------------------------------
+# R12.14  integer division: no divisor can be zero
+# ---------------------------------------------------------------------------------------------------------
+def _nonzero_proof(b, n, div):
+    """why the divisor of n cannot be 0, or None"""
+    d = strip(div)
+    for _ in range(4):
+        if d.get("k") == "Local" and b.local_init(d["id"]) is not None:
+            d = strip(b.local_init(d["id"]))
+        else:
+            break
+    # (a) max(x, k) with a literal k >= 1
+    if d.get("k") in ("Call", "MCall"):
+        c = str(d.get("resolved") or d.get("callee") or "")
+        if c.endswith("::max") or d.get("name") == "max":
+            ops = ([d["recv"]] if d.get("k") == "MCall" else []) + list(d["args"])
+            if any(strip(o).get("k") == "Lit" and isinstance(strip(o).get("v"), int) and strip(o)["v"] >= 1 for o in ops):
+                return "max(.., k>=1)"
+    if d.get("k") == "Lit" and isinstance(d.get("v"), int) and d["v"] != 0:
+        return "literal"
+    key = b.canon(strip(div), 6)
+    # (b) a guard on the path says the divisor is not zero: `if d == 0 { return }` before, `d != 0 &&` around
+    for pol, kind, g in b.guards(n, nested=True):
+        if kind != "cond":
+            continue
+        todo = [(pol, strip(g))]
+        while todo:
+            pl, e = todo.pop()
+            if e.get("k") == "Unary" and e.get("op") == "!":
+                todo.append((not pl, strip(e["e"])))
+            elif e.get("k") == "Binary" and e["op"] == ("&&" if pl else "||"):
+                todo += [(pl, strip(e["l"])), (pl, strip(e["r"]))]
+            elif e.get("k") == "Binary" and e["op"] in ("==", "!=", ">", ">=", "<"):
+                l, r = strip(e["l"]), strip(e["r"])
+                for x, y in ((l, r), (r, l)):
+                    if b.canon(x, 6) == key and y.get("k") == "Lit" and isinstance(y.get("v"), int):
+                        op, v = e["op"], y["v"]
+                        if x is r:
+                            op = {">": "<", "<": ">", ">=": "<="}.get(op, op)
+                        holds = pl
+                        if (op == "!=" and v == 0 and holds) or (op == "==" and v == 0 and not holds) or \
+                           (op == ">" and v >= 0 and holds) or (op == ">=" and v >= 1 and holds) or (op == "<" and v <= 1 and not holds):
+                            return "guarded by `%s`" % b.canon(e, 3)[:50]
+    # (c) a local that starts at a positive literal and is only ever multiplied / shifted left / increased
+    d = strip(div)
+    if d.get("k") == "Local":
+        df = b.local_def.get(d["id"])
+        if df and df[0][0] == "let" and df[0][1].get("init") is not None:
+            init = strip(df[0][1]["init"])
+            if init.get("k") == "Lit" and isinstance(init.get("v"), int) and init["v"] >= 1:
+                asg = [a for a in b.nodes if a["k"] in ("Assign", "AssignOp") and strip(a["l"]).get("k") == "Local" and strip(a["l"])["id"] == d["id"]]
+                if all(a["k"] == "AssignOp" and a["op"] in ("*", "*=", "<<", "<<=", "+", "+=") and strip(a["r"]).get("k") == "Lit" and strip(a["r"]).get("v", 0) >= 1
+                       for a in asg):
+                    return "starts at %d and only grows" % init["v"]
+    return None
+
+
+@RULES.rule("R12.14", "no integer division or remainder has a divisor that can be zero", floor=6)
+def r12_14(rep):
+    """Alignments and sizes come from libclang and can be 0 (incomplete / dependent types: `template<class T> struct S { int pre;
+    typename T::Assoc a; int b; }`).  `align_to(size, 0)` written as `(size + align - 1) / align * align` panics with "attempt to
+    divide by zero" where the guarded form returns `size`.  Every `/` and `%` whose divisor is not a non-zero literal needs a
+    reason."""
+    prog = rep.prog
+    n = 0
+    seen = {}
+    for p, b in sorted(prog.bodies.items()):
+        if b.file.startswith("bindgen/") is False:
+            continue
+        for x in b.nodes:
+            if x["k"] not in ("Binary", "AssignOp") or x.get("op") not in ("/", "%", "/=", "%=") or b.macro_name(x):
+                continue
+            t = (b.ty(x["l"]) or "").replace("&", "")
+            if t in ("f32", "f64"):
+                continue
+            d = strip(x["r"])
+            if d.get("k") == "Lit" and isinstance(d.get("v"), int) and d["v"] != 0:
+                continue
+            n += 1
+            why = _nonzero_proof(b, x, x["r"])
+            k = "divisor-nonzero:%s@%s" % (b.canon(x["r"], 2)[:40], short(b))
+            seen[k] = seen.get(k, 0) + 1
+            if seen[k] > 1:
+                k += "#%d" % seen[k]
+            rep.check(why is not None, k, why or "`%s %s %s`: nothing on the path excludes a zero divisor" %
+                      (b.canon(x["l"], 2)[:30], x["op"], b.canon(x["r"], 2)[:30]), b.loc(x))
+    rep.need(n >= 6, "divisions by computed values (align_to, blob, already_packed, for_size_internal, align_to_latest_field)")
+
+
+# ---------------------------------------------------------------------------------------------------------
+# R12.15  ids that may never have become items are only resolved fallibly
+# ---------------------------------------------------------------------------------------------------------
+@RULES.rule("R12.15", "replacement ids recorded by `replaces=` annotations are resolved fallibly before anything else touches them", floor=2)
+def r12_15(rep):
+    """`/** <div rustbindgen replaces="Foo"></div> */ extern int x;` records a freshly reserved id for `Foo` that never becomes an
+    item (the declaration is not a type definition).  `BindgenContext::process_replacements` must test such an id with
+    `resolve_item_fallible` before handing it to anything that goes through `resolve_item` (`as_type_id`, `expect_type_id`, …),
+    which panics with "Not an item" on an unfilled slot."""
+    prog = rep.prog
+    b = rep.need(prog.fn("ir::context::BindgenContext::process_replacements"), "BindgenContext::process_replacements")
+    PANICKY = "ir::context::BindgenContext::resolve_item"
+    # locals holding a value of the `replacements` map
+    vals = set()
+    for n in b.nodes:
+        if n["k"] in ("Let", "LetCond") and n.get("init") is not None:
+            src = b.canon(n["init"], 6)
+            if "BindgenContext::replacements" in src and ("::get(" in src or "get(" in src):
+                def binds(p):
+                    if p.get("k") == "Bind":
+                        vals.add(p["id"])
+                    for q in p.get("ps", []):
+                        binds(q)
+                    if isinstance(p.get("p"), dict):
+                        binds(p["p"])
+                binds(n["pat"])
+    # `if let Some(r) = replacement` rebinding
+    changed = True
+    while changed:
+        changed = False
+        for n in b.nodes:
+            if n["k"] in ("Let", "LetCond") and n.get("init") is not None and strip(n["init"]).get("k") == "Local" and strip(n["init"])["id"] in vals:
+                def binds2(p):
+                    nonlocal changed
+                    if p.get("k") == "Bind" and p["id"] not in vals:
+                        vals.add(p["id"])
+                        changed = True
+                    for q in p.get("ps", []):
+                        binds2(q)
+                    if isinstance(p.get("p"), dict):
+                        binds2(p["p"])
+                binds2(n["pat"])
+    rep.need(vals, "the value looked up in `self.replacements` in process_replacements")
+    reach_cache = {}
+
+    def panics(callee):
+        if callee not in reach_cache:
+            reach_cache[callee] = callee == PANICKY or PANICKY in prog.reachable([callee], stop=lambda x: x.endswith("resolve_item_fallible"))
+        return reach_cache[callee]
+
+    n_uses = 0
+    for c in b.nodes:
+        if c["k"] not in ("MCall", "Call"):
+            continue
+        operands = ([c["recv"]] if c["k"] == "MCall" else []) + list(c.get("args", []))
+        if not any(strip(o).get("k") == "Local" and strip(o)["id"] in vals for o in operands):
+            continue
+        cal = str(c.get("resolved") or c.get("callee") or "")
+        if cal.endswith("resolve_item_fallible") or not cal or cal.startswith("std::") or cal.startswith("<std::") or "PartialEq" in cal:
+            continue
+        if not panics(cal):
+            continue
+        n_uses += 1
+        guarded = False
+        for pol, kind, g in b.guards(c):
+            if kind in ("cond",) and pol:
+                src = b.canon(g, 5)
+                if "resolve_item_fallible(" in src and ("is_some" in src or strip(g).get("k") == "LetCond"):
+                    guarded = True
+        rep.check(guarded, "dangling-id:%s@process_replacements" % cal.split("::")[-1],
+                  "`%s` on the recorded replacement id runs only after `resolve_item_fallible(id).is_some()`" % cal.split("::")[-1] if guarded else
+                  "`%s` reaches BindgenContext::resolve_item with an id that may never have become an item (`replaces=` on a non-type "
+                  "declaration): panics with 'Not an item'" % cal.split("::")[-1], b.loc(c))
+    rep.need(n_uses >= 1, "a use of the recorded replacement id that reaches resolve_item")
+    rep.ok("dangling-id:fallible-test-present", "process_replacements consults resolve_item_fallible")
+
+
+# ---------------------------------------------------------------------------------------------------------
+# R12.16  layout arithmetic: unsigned subtraction cannot wrap
+# ---------------------------------------------------------------------------------------------------------
+def _ge_proof(b, n):
+    """why `l - r` of node n cannot underflow, or None"""
+    l, r = strip(n["l"]), strip(n["r"])
+    kl, kr = b.canon(l, 8), b.canon(r, 8)
+    # P2  align_to(r, _) - r   /   max(r, _) - r
+    if l.get("k") in ("Call", "MCall"):
+        c = str(l.get("resolved") or l.get("callee") or "")
+        ops = ([l["recv"]] if l.get("k") == "MCall" else []) + list(l.get("args", []))
+        if (c.endswith("align_to") and ops and b.canon(ops[0], 8) == kr) or (c.endswith("::max") and any(b.canon(o, 8) == kr for o in ops)):
+            return "%s(r, ..) >= r" % c.split("::")[-1]
+    # P6  (x + y) - (x % y): the remainder is smaller than y
+    if r.get("k") == "Local" and b.local_init(r["id"]) is not None:
+        ri = strip(b.local_init(r["id"]))
+    else:
+        ri = r
+    if ri.get("k") == "Binary" and ri["op"] == "%" and l.get("k") == "Binary" and l["op"] == "+":
+        y = b.canon(ri["r"], 8)
+        if y in (b.canon(l["l"], 8), b.canon(l["r"], 8)):
+            return "(x + y) - (x % y), remainder < y"
+    # P1  a comparison on the path
+    for pol, kind, g in b.guards(n, nested=True):
+        if kind != "cond":
+            continue
+        todo = [(pol, strip(g))]
+        while todo:
+            pl, e = todo.pop()
+            if e.get("k") == "Unary" and e.get("op") == "!":
+                todo.append((not pl, strip(e["e"])))
+            elif e.get("k") == "Binary" and e["op"] == ("&&" if pl else "||"):
+                todo += [(pl, strip(e["l"])), (pl, strip(e["r"]))]
+            elif e.get("k") == "Binary" and e["op"] in ("<", "<=", ">", ">="):
+                a, c_ = b.canon(e["l"], 8), b.canon(e["r"], 8)
+                op = e["op"]
+                if not pl:
+                    op = {"<": ">=", "<=": ">", ">": "<=", ">=": "<"}[op]
+                if (a, c_) == (kl, kr) and op in (">", ">="):
+                    return "guarded: l %s r" % op
+                if (a, c_) == (kr, kl) and op in ("<", "<="):
+                    return "guarded: r %s l" % op
+    # P5  `l += r` immediately before, in the same block, nothing in between writes l or r
+    # (logging macros wrap their arguments in blocks of their own: look outwards block by block; conditions in between only make
+    # the subtraction run less often)
+    par = b.parent[n["_i"]]
+    while par is not None:
+        if par["k"] in ("Closure", "Loop", "While", "For"):
+            break
+        if par["k"] == "Block":
+            blk = par
+            stmts = blk["stmts"] + ([blk["tail"]] if isinstance(blk.get("tail"), dict) else [])
+            idx = next((i for i, st in enumerate(stmts) if any(x is n for x in b.walk(st))), None)
+            stop = False
+            if idx is not None:
+                def establishes(st_):
+                    e_ = strip(st_.get("e", st_) if st_.get("k") in ("Semi", "ExprStmt") else st_)
+                    if e_.get("k") == "AssignOp" and e_.get("op") in ("+", "+=") and b.canon(e_["l"], 8) == kl and b.canon(e_["r"], 8) == kr:
+                        return True
+                    if e_.get("k") == "Assign" and b.canon(e_["l"], 8) == kl:
+                        v = strip(e_["r"])
+                        if v.get("k") in ("Call", "MCall") and str(v.get("resolved") or v.get("callee") or "").endswith("::max"):
+                            ops_ = ([v["recv"]] if v.get("k") == "MCall" else []) + list(v.get("args", []))
+                            return any(b.canon(o, 8) == kr for o in ops_)
+                    if e_.get("k") == "If" and "else" in e_:
+                        def last(blk_):
+                            blk_ = strip(blk_)
+                            if blk_.get("k") != "Block":
+                                return blk_
+                            if isinstance(blk_.get("tail"), dict):
+                                return blk_["tail"]
+                            return blk_["stmts"][-1] if blk_["stmts"] else {}
+                        return establishes(last(e_["then"])) and establishes(last(e_["else"]))
+                    return False
+                for st in reversed(stmts[:idx]):
+                    e = st.get("e", st) if st.get("k") in ("Semi", "ExprStmt") else st
+                    if establishes(st):
+                        return "`l += r` (or `l = max(l, r)`) just before"
+                    if any(x["k"] in ("Assign", "AssignOp") and b.canon(x["l"], 8) in (kl, kr) for x in b.walk(st)):
+                        stop = True
+                        break
+            if stop:
+                break
+        par = b.parent[par["_i"]]
+    return None
+
+
+@RULES.rule("R12.16", "struct layout bookkeeping: no unsigned subtraction can wrap", floor=9)
+def r12_16(rep):
+    """`StructLayoutTracker` subtracts offsets and sizes that come from libclang and from its own running offset.  A derived class may
+    reuse its base's tail padding (`struct A { A(); int x; char y; }; struct B : A { char z; };`): the tracker's offset is then
+    PAST the size clang reports, and `comp_layout.size - self.latest_offset` in `add_tail_padding` (guarded only by `==`) panics with
+    "attempt to subtract with overflow" under `--explicit-padding`."""
+    prog = rep.prog
+    n = 0
+    seen = {}
+    for p, b in sorted(prog.bodies.items()):
+        if b.file != "bindgen/codegen/struct_layout.rs":
+            continue
+        for x in b.nodes:
+            if x["k"] not in ("Binary", "AssignOp") or x.get("op") not in ("-", "-=") or b.macro_name(x):
+                continue
+            if (b.ty(x["l"]) or "").replace("&", "") not in ("usize", "u64", "u32"):
+                continue
+            n += 1
+            why = _ge_proof(b, x)
+            k = "no-underflow:%s@%s" % (re.sub(r"param:self\.[\w:<>']+::", "self.", b.canon(x["r"], 2))[:40], short(b))
+            seen[k] = seen.get(k, 0) + 1
+            if seen[k] > 1:
+                k += "#%d" % seen[k]
+            rep.check(why is not None, k, why or "`%s - %s`: nothing on the path says the left side is at least the right side" %
+                      (b.canon(x["l"], 2)[:40], b.canon(x["r"], 2)[:40]), b.loc(x))
+    rep.need(n >= 9, "unsigned subtractions in codegen/struct_layout.rs")
+
+
+# ---------------------------------------------------------------------------------------------------------
+# R12.17 / R12.18  values that the header controls are not asserted on
+# ---------------------------------------------------------------------------------------------------------
+@RULES.rule("R12.17", "a kind reported by libclang is never matched with a panicking catch-all", floor=2)
+def r12_17(rep):
+    """clang accepts more than bindgen models (`_Complex int ci;` is a GNU extension whose element kind is `Int`).  A
+    `match <clang kind> { known.. , _ => panic!() }` aborts on such input; the catch-all has to produce a value (opaque blob) or an
+    error.  A catch-all that is unreachable because an enclosing arm on the same kind already restricts it is accepted."""
+    from hir import pat_variants as _pv
+    prog = rep.prog
+    n = 0
+    for p, b in sorted(prog.bodies.items()):
+        if not b.file.startswith("bindgen/"):
+            continue
+        for m in b.nodes:
+            if m["k"] != "Match" or (b.ty(m["scrut"]) or "").replace("&", "") not in ("i32", "u32"):
+                continue
+            src = b.canon(m["scrut"], 4)
+            if "clang::Type::kind(" not in src and "clang::Cursor::kind(" not in src:
+                continue
+            wild = [a for a in m["arms"] if "_" in _pv(a["pat"]) or not _pv(a["pat"])]
+            if not wild or not _aborts(b, wild[-1]["body"]):
+                continue
+            n += 1
+            inner = {v for a in m["arms"] for v in _pv(a["pat"]) if v != "_"}
+            covered = False
+            for pol, kind, g in b.guards(m):
+                if kind == "arm" and pol:
+                    mm, i = g
+                    if b.canon(mm["scrut"], 4) == src:
+                        outer = {v for v in _pv(mm["arms"][i]["pat"]) if v != "_"}
+                        if outer and outer <= inner:
+                            covered = True
+            rep.check(covered, "clang-kind-catch-all@" + short(b),
+                      "the catch-all is unreachable: an enclosing arm on the same kind admits only the listed kinds" if covered else
+                      "`match %s { .., _ => panic }`: a kind clang reports and bindgen does not list aborts the run" % src[:60], b.loc(m))
+    # fail closed on the two places this was written for
+    bb = rep.need(prog.fn("ir::context::BindgenContext::build_builtin_ty"), "BindgenContext::build_builtin_ty")
+    cx = [m for m in bb.nodes if m["k"] == "Match" and "clang::Type::kind(" in bb.canon(m["scrut"], 4) and
+          any("Complex" in bb.canon(a["body"], 3) for a in m["arms"])]
+    rep.check(bool(cx), "complex-element-kind-match", "build_builtin_ty decides the element kind of a complex type by a match on clang's kind", bb.loc(bb.root))
+    for m in cx:
+        wild = [a for a in m["arms"] if "_" in _pv(a["pat"])]
+        if wild and any("Complex" in bb.canon(a["body"], 3) for a in m["arms"] if a is not wild[-1]) and \
+                not any(x["k"] == "Match" for x in bb.walk(wild[-1]["body"])):
+            rep.check(not _aborts(bb, wild[-1]["body"]), "complex-element-kind-catch-all", "a non-floating complex element kind yields a value", bb.loc(wild[-1]["body"]))
+
+
+@RULES.rule("R12.18", "the value of an evaluated macro is never unwrapped or asserted on", floor=2)
+def r12_18(rep):
+    """`#define X '\\777'`, `'\\x123'`, `'\\u00e9'`, `U'\\U0001F600'` are character constants clang accepts; cexpr reports them as
+    `CChar::Raw(n)` with n > 255 or as a multi-byte `char`.  `u8::try_from(c).unwrap()` / `assert_eq!(c.len_utf8(), 1)` in
+    `Var::parse` abort on them; such a macro has to be skipped (`ParseError::Continue`) like any other value bindgen cannot model."""
+    from hir import pat_variants as _pv
+    prog = rep.prog
+    b = rep.need(prog.impl_fn("parse::ClangSubItemParser", "ir::var::Var", "parse"), "<Var as ClangSubItemParser>::parse")
+    ms = [m for m in b.nodes if m["k"] == "Match" and any(v.startswith("cexpr::expr::EvalResult::") for a in m["arms"] for v in _pv(a["pat"]))]
+    rep.need(ms, "the match over cexpr::expr::EvalResult in Var::parse")
+    n = 0
+    for m in ms:
+        for i, a in enumerate(m["arms"]):
+            vs = [v for v in _pv(a["pat"]) if v.startswith("cexpr::expr::EvalResult::")]
+            if not vs:
+                continue
+            ids = set()
+
+            def binds(p_):
+                if p_.get("k") == "Bind":
+                    ids.add(p_["id"])
+                for q in p_.get("ps", []):
+                    binds(q)
+                for f_ in p_.get("fs", []):
+                    binds(f_["p"])
+                for kk in ("p", "sub"):
+                    if isinstance(p_.get(kk), dict):
+                        binds(p_[kk])
+            binds(a["pat"])
+            # values derived inside the arm (inner matches / lets on the bound value)
+            changed = True
+            while changed:
+                changed = False
+                for x in b.walk(a["body"]):
+                    if x["k"] in ("Let", "LetCond") and x.get("init") is not None and any(y["k"] == "Local" and y["id"] in ids for y in b.walk(x["init"])):
+                        before = len(ids)
+                        binds(x["pat"])
+                        changed = changed or len(ids) != before
+                    if x["k"] == "Match" and any(y["k"] == "Local" and y["id"] in ids for y in b.walk(x["scrut"])):
+                        before = len(ids)
+                        for aa in x["arms"]:
+                            binds(aa["pat"])
+                        changed = changed or len(ids) != before
+            n += 1
+            bad = []
+            for x in b.walk(a["body"]):
+                if x["k"] == "MCall" and x.get("name") in ("unwrap", "expect") and any(y["k"] == "Local" and y["id"] in ids for y in b.walk(x["recv"])):
+                    bad.append((x, ".%s()" % x["name"]))
+                if x["k"] == "If" and (b.macro_name(x) or "") in ("assert", "assert_eq", "assert_ne") and \
+                        any(y["k"] == "Local" and y["id"] in ids for y in b.walk(x["cond"])):
+                    bad.append((x, b.macro_name(x) + "!"))
+                if x["k"] == "Match" and (b.macro_name(x) or "") in ("assert_eq", "assert_ne") and \
+                        any(y["k"] == "Local" and y["id"] in ids for y in b.walk(x["scrut"])):
+                    bad.append((x, b.macro_name(x) + "!"))
+            key = "macro-value:%s" % "|".join(v.split("::")[-1] for v in vs)
+            rep.check(not bad, key, "no unwrap / assert on the evaluated value" if not bad else
+                      "%s on the evaluated macro value: a constant bindgen does not model aborts the run" % ", ".join(sorted({w for _, w in bad})),
+                      b.loc(bad[0][0]) if bad else b.loc(a["body"]))
+    rep.need(n >= 2, "EvalResult arms in Var::parse")
